@@ -1,44 +1,21 @@
-//! Runtime-type properties of cglue, checked by generated histories against std models.
 //! usage: rtprops <C06|C07|C10|...> [--tier quick|thorough] [--seed N] [--out file] [--known keys] [--replay file]
 use verifkit::{Args, Ctx};
-// cglue's expansion of borrowed wrapped returns names `crate::trait_group`
-#[allow(unused_imports)]
-pub use cglue::*;
 
 #[global_allocator]
 static A: verifkit::alloc::Tracking = verifkit::alloc::Tracking;
 
-mod boxes;
-mod c0607;
-mod c10;
-mod fam;
-mod c11;
-mod c12;
-mod c13;
-mod c14;
-mod c15;
-mod c16;
-mod c19;
-
 fn main() {
-    verifkit::quiet_panics();
-    let args = Args::parse();
-    let ctx = Ctx::new(args);
-    let code = match ctx.args.prop.as_str() {
-        "C06" => c0607::run(&ctx, "C06"),
-        "C07" => c0607::run(&ctx, "C07"),
-        "C10" => c10::run(&ctx),
-        "C11" => c11::run(&ctx),
-        "C12" => c12::run(&ctx),
-        "C13" => c13::run(&ctx),
-        "C14" => c14::run(&ctx),
-        "C15" => c15::run(&ctx),
-        "C16" => c16::run(&ctx),
-        "C19" => c19::run(&ctx),
-        p => {
-            eprintln!("rtprops: unknown property {p}");
-            2
+    // rtprops --decode-fuzz <target> <artifact>: print the case a fuzzer artifact decodes to
+    let a: Vec<String> = std::env::args().collect();
+    if a.get(1).map(|s| s == "--decode-fuzz").unwrap_or(false) {
+        let bytes = std::fs::read(&a[3]).expect("artifact unreadable");
+        match rtprops::decode_fuzz(&a[2], &bytes) {
+            Some((sub, case)) => println!("{}", serde_json::json!({"sub": sub, "case": case})),
+            None => std::process::exit(2),
         }
-    };
-    std::process::exit(code);
+        return;
+    }
+    verifkit::quiet_panics();
+    let ctx = Ctx::new(Args::parse());
+    std::process::exit(rtprops::run_property(&ctx));
 }
